@@ -606,31 +606,31 @@ func msgClass(msg string) string {
 	return strings.Join(keep, "_")
 }
 
-func txLabel(s txSpec, prog string) string {
+// txLabel is the part of a signature contributed by one transaction: its kind, the native
+// opcode family it runs when that is one of the chain's own extensions (stake/unstake/...),
+// and ":fail"/":evicted" when it did not succeed.  Ordinary EVM program shapes are left out so
+// that one defect in shared code does not get a signature per program.
+func txLabel(s txSpec, prog, outcome string) string {
+	l := s.Kind
 	switch s.Kind {
-	case "transfer":
-		return "transfer"
 	case "call":
-		t := s.To[0]
-		fam := ""
-		if t == "C0" {
-			fam = family(prog)
-		} else if pl, ok := helperProg[t]; ok {
-			fam = pl
-		} else {
-			fam = "eoa"
+		l = "contract-call"
+		if s.To[0] == "C0" {
+			switch f := family(prog); f {
+			case "stake", "unstake", "unstakeall":
+				l += ":" + f
+			}
 		}
-		return "contract-call:" + fam
 	case "create":
-		return "contract-create:" + s.Init
-	case "apply":
-		return "miner-apply"
-	case "add":
-		return "miner-add"
-	case "refund":
-		return "miner-refund"
+		l = "contract-create"
+	case "apply", "add", "refund":
+		l = "miner-" + s.Kind
 	}
-	return s.Kind
+	f := strings.Split(outcome, "|")
+	if len(f) > 1 && f[1] != "ok" {
+		l += ":" + f[1]
+	}
+	return l
 }
 
 // reopen commits the state and opens a fresh AccountDB object at the new root, exactly as the
@@ -885,8 +885,9 @@ func minimise(k kase, obs string) kase {
 	return k
 }
 
-func signature(k kase, obs string) string {
+func signature(k kase, obs string, outcomes []string) string {
 	var labels []string
+	i := 0
 	for _, b := range k.Blocks {
 		for _, s := range b {
 			if s.Kind == "call" || s.Kind == "create" {
@@ -901,7 +902,12 @@ func signature(k kase, obs string) string {
 					}
 				}
 			}
-			labels = append(labels, txLabel(s, k.Prog))
+			oc := ""
+			if i < len(outcomes) {
+				oc = outcomes[i]
+			}
+			labels = append(labels, txLabel(s, k.Prog, oc))
+			i++
 		}
 	}
 	if len(labels) == 0 {
@@ -945,7 +951,7 @@ func report(c *fw.Ctx, k kase, r result) {
 		msg = append(msg, fmt.Sprintf("[block %d] %s: %s", f.Block, f.Obs, f.Detail))
 	}
 	js, _ := json.Marshal(m)
-	c.Violation(signature(m, obsSet(rm.findings)), "conservation", strings.Join(msg, " | ")+" | case "+string(js), m)
+	c.Violation(signature(m, obsSet(rm.findings), rm.outcomes), "conservation", strings.Join(msg, " | ")+" | case "+string(js), m)
 }
 
 // ---------------------------------------------------------------------------------------
@@ -1323,7 +1329,7 @@ func replay(c *fw.Ctx, raw json.RawMessage) {
 		for _, f := range r.findings {
 			msg = append(msg, fmt.Sprintf("[block %d] %s: %s", f.Block, f.Obs, f.Detail))
 		}
-		c.Violation(signature(k, obsSet(r.findings)), "conservation", strings.Join(msg, " | "), k)
+		c.Violation(signature(k, obsSet(r.findings), r.outcomes), "conservation", strings.Join(msg, " | "), k)
 	}
 }
 
